@@ -25,6 +25,10 @@ def run(ctx, db, tier):
     enqueue(ctx, db)
     resume_all(ctx, db)
     stop(ctx, db)
+    # co_await pool(awaitable): the pool's awaiter registers with the awaited object; a refused registration (already resolved) must
+    # resume at once, so its answer has to reach the language (returned from await_suspend) or be branched on
+    from . import C02
+    C02.result_used(ctx, db, 'C11.refused-registration-continues', C02.SUBSCRIBE_FAMILY, floor=1, only=lambda f: f['nname'].startswith('cocls::thread_pool::'))
     worker(ctx, db)
     locks.check_guarded(ctx, db, 'C11.locks', {k: v for k, v in GUARDED.items() if k.startswith('cocls::thread_pool::')}, [TP], per_instance=False, floor=10)
     await_resume(ctx, db)
@@ -213,8 +217,8 @@ def resume_all(ctx, db):
         ctx.ob(rid, f, f['key'], bad is None, 'drain the suspend point completely, one handle per closure' + ('' if not bad else ' -- ' + bad[0]), desc=bad[0] if bad else None, trace=fmt_trace(bad[1]) if bad else None)
 
 
-def stop(ctx, db):
-    rid = ctx.rule('C11.stop', 'LOCKSET+COUNT', 'thread_pool::stop (helpers of the class expanded in place): on every path the exit flag is set to true exactly once and all workers are notified '
+def stop(ctx, db, rid='C11.stop'):
+    rid = ctx.rule(rid, 'LOCKSET+COUNT', 'thread_pool::stop (helpers of the class expanded in place): on every path the exit flag is set to true exactly once and all workers are notified '
                    'while the lock is held; no join() while the lock is held; each thread is joined on the edge where it is not the calling thread and detached (with the current-pool marker '
                    'reset, and only there) otherwise; the tasks swapped out of the queue are a local of stop() that is destroyed - which runs their cancellation code - after the lock has been released', floor=1)
     Qf = 'cocls::thread_pool::_queue'
